@@ -90,6 +90,9 @@ pub struct CommitEntry {
     /// insider forgeries of this commit: (kind, message) built by the same member from the same state and the
     /// same proposals, structurally invalid but signed, tagged and hashed consistently (C03)
     pub forged: Vec<(String, MlsMessage)>,
+    /// leaf index of the committer and the authenticated data it put into the commit
+    pub by_leaf: u32,
+    pub ad: Vec<u8>,
     pub tree: Option<Vec<u8>>, // exported tree bytes of the new epoch (out of band)
     pub base_epoch: u64,
 }
@@ -144,6 +147,8 @@ pub struct World {
     pub kps: Vec<KpEntry>,
     pub props: Vec<MlsMessage>,
     pub prop_refs: Vec<Vec<u8>>,
+    /// per proposal: kind, sender ("member:<leaf>", "external:<i>", "newmember") and authenticated data
+    pub prop_meta: Vec<(String, String, Vec<u8>)>,
     pub commits: Vec<CommitEntry>,
     pub keys: Bij,
     pub secrets: Bij,
@@ -254,6 +259,7 @@ impl World {
             kps: vec![],
             props: vec![],
             prop_refs: vec![],
+            prop_meta: vec![],
             commits: vec![],
             keys: Bij::default(),
             secrets: Bij::default(),
